@@ -190,6 +190,33 @@ theorem C16_as_dict_policy (a : AsDictArg) (st : St) (w : World) :
     (asDict cfg a st w).2 ≠ .raised .accessDenied ∧ (asDict cfg a st w).2 ≠ .raised .zombieProcess :=
   asDict_never_accessDenied cfg cfg_good a st w
 
+/-- what counts as a collection for as_dict: exactly the four types the harness maps to kind
+    `names` (list, tuple, set, frozenset); str, bytes, dict, dict views, range, deque, generators
+    and everything else are kind `nonCollection` (TypeError) -/
+theorem cfg_collection_types : Gen.C16.collectionTypes = ["list", "tuple", "set", "frozenset"] := by decide
+
+/-- **as_dict, per-name policy (one loop iteration, any position, any accumulated prefix).** A value
+    is kept under its name; AccessDenied and ZombieProcess become ad_value under that name and the
+    loop goes on; NoSuchProcess propagates at once; NotImplementedError propagates when names were
+    explicitly requested and otherwise drops just that name. -/
+theorem C16_as_dict_per_name_policy (env : List (String × EnvOut)) (ex : Bool) (w : World) (st : St)
+    (n : String) (rest : List String) (acc : List (String × DVal)) :
+    asDictLoop cfg env ex w st (n :: rest) acc =
+      match evalName cfg env st w n with
+      | (st1, .ok v) => asDictLoop cfg env ex w st1 rest ((n, v) :: acc)
+      | (st1, .error .accessDenied) => asDictLoop cfg env ex w st1 rest ((n, .adValue) :: acc)
+      | (st1, .error .zombieProcess) => asDictLoop cfg env ex w st1 rest ((n, .adValue) :: acc)
+      | (st1, .error .noSuchProcess) => (st1, .raised .noSuchProcess)
+      | (st1, .error .notImplemented) =>
+        if ex then (st1, .raised .notImplemented) else asDictLoop cfg env ex w st1 rest acc := by
+  have hA : cfg.adCatches = [.accessDenied, .zombieProcess] := by decide
+  have hN : cfg.notImplSkips = true := by decide
+  rw [asDictLoop]
+  rcases evalName cfg env st w n with ⟨st1, r⟩
+  cases r with
+  | ok v => rfl
+  | error e => cases e <;> cases ex <;> simp [hA, hN]
+
 /- =========================================================================================
    Part 2 — threads: all interleavings of the small-step model
    ========================================================================================= -/
@@ -362,6 +389,32 @@ theorem C16_literal_counterexample : ¬ C16_value_valid_Literal cfgFixed ∧ ¬ 
 example : ((runD cfgFixed St.init hitActs).thr 1).pc = .ret 0 14 ⟨5, 10⟩ (.hit 2 15) ∧
     intervalOK (runD cfgFixed St.init hitActs) 0 14 ⟨5, 10⟩ (.hit 2 15) = true ∧
     literalOK (runD cfgFixed St.init hitActs) 0 14 ⟨5, 10⟩ = false := by decide
+
+/-- full-strength reading of "value at the first read in that block" under threads: as long as a
+    thread stays inside its block, two of its calls of the same function return the same entry -/
+def C16_owner_first_read_stable_Full (c : CCfg) : Prop :=
+  ∀ (as1 as2 : List Action) (t f cs1 cs2 : Nat) (e1 e2 : Entry) (h1 h2 : How),
+    ((runD c St.init as1).thr t) = ⟨.ret f cs1 e1 h1, .inReal⟩ →
+    ((runD c (runD c St.init as1) as2).thr t) = ⟨.ret f cs2 e2 h2, .inReal⟩ →
+    (.thr t .beginExit) ∉ as2 → e1 = e2
+
+/-- thread 1's plain call misses in thread 0's block dict, thread 0 reads (5) and caches, the
+    content changes, thread 1 reads (9) and stores into the SAME dict; thread 0's next call in
+    the same block returns 9 -/
+def replaceActs1 : List Action :=
+  blockIn 0 ++ [.thr 1 (.call 0), stp 1, stp 1, .setVer 0 5, .thr 0 (.call 0), stp 0, stp 0, stp 0, stp 0]
+def replaceActs2 : List Action :=
+  [.setVer 0 9, stp 1, stp 1, stp 0, .thr 0 (.call 0), stp 0, stp 0]
+
+/-- … is false of the wrapper: it takes no lock, so a
+    plain caller that missed before the owner stored overwrites the owner's entry with a LATER
+    read. Both values were read inside the block (`C16_value_valid_at_some_moment`), but the
+    owner does not keep its first one and the source is read twice during the block
+    (finding C16-owner-entry-overwritten). -/
+theorem C16_owner_first_read_counterexample : ¬ C16_owner_first_read_stable_Full cfgFixed := by
+  intro h
+  have := h replaceActs1 replaceActs2 0 0 10 19 ⟨5, 13⟩ ⟨9, 16⟩ .computed (.hit 2 20) (by decide) (by decide) (by decide)
+  revert this; decide
 
 /-- for a call that MISSES (computes), the literal form does hold, under every interleaving -/
 theorem C16_value_valid_literal_for_misses (c : CCfg) {s : St} (h : Reach c s) (tid f cs : Nat) (e : Entry)
